@@ -18,7 +18,7 @@ def run(ctx):
     if ctx.quick:
         plan = {"mc": [("time_mem", mem, PROPS, dict(family=("lease", "deqvar"), horizon=20, maxep=2, maxins=1, ticks=(5, 10), delays=(0, 5), ttls=(5, 10))),
                        ("time_sql", sql, PROPS, dict(family=("lease", "deqvar"), horizon=20, maxep=2, maxins=1, ticks=(5, 10), delays=(0, 5), ttls=(5,)))],
-                "gen": [("time", mem, dict(family=("lease",), horizon=20, maxep=2, maxins=1, pick="insertion", ttls=(5,), ticks=(5, 10), delays=(0, 5)), 2)],
+                "gen": [("time", mem, dict(family=("lease", "restart"), horizon=20, maxep=2, maxins=1, pick="insertion", ttls=(5,), ticks=(5, 10), delays=(0, 5)), 2)],
                 "drv": [("time", "time", 150, 70, dict(churn_every=60))]}
     else:
         # measured (8 workers): coarse grid 276k distinct states / 63 s, fine grid (1-tick steps, one insertion) 156k / 31 s;
@@ -29,7 +29,7 @@ def run(ctx):
                        ("time_sql", sql, PROPS, coarse), ("time_sql_fine", sql, PROPS, fine)],
                 # the exhaustive edge graph of the larger configurations has > 6M edges (measured): exhaustive on the one-insertion
                 # graph, then long random behaviours (TLC -simulate) of the large memory- and SQLite-shaped models
-                "gen": [("time", mem, dict(family=("lease", "deqvar"), horizon=20, maxep=2, maxins=1, pick="insertion", ttls=(5, 10), ticks=(5, 10), delays=(0, 5)), 1),
+                "gen": [("time", mem, dict(family=("lease", "deqvar", "restart"), horizon=20, maxep=2, maxins=1, pick="insertion", ttls=(5, 10), ticks=(5, 10), delays=(0, 5)), 1),
                         ("time_sim", mem, dict(family=("lease", "deqvar"), horizon=30, maxep=2, maxins=2, pick="insertion", ttls=(5, 10), ticks=(1, 5, 10),
                                                delays=(0, 5, 7), simulate=600, depth=30), 1),
                         ("time_sql_sim", sql, dict(family=("lease", "deqvar"), horizon=30, maxep=2, maxins=2, pick="nextrun", ttls=(5, 10), ticks=(1, 9, 10),
